@@ -360,7 +360,7 @@ def run_drd(chk, shim, lst, keys, nproc):
     # keep the result of the pass with the hash of the sources it ran on: quick-tier evidence quotes it (audit r2 N6)
     try:
         json.dump({"when": time.strftime("%Y-%m-%d %H:%M:%S"), "seed": chk.seed, "pyimath_source_hash": pyimath_source_hash(), "passed": bool(okd and okc),
-                   "result": chk.extra["drd"]}, open(os.path.join(lib.VERIF, "evidence", "C20.drd.json"), "w"), indent=1)
+                   "result": chk.extra["drd"]}, open(os.path.join(lib.ensure_dir(os.path.join(lib.VERIF, "evidence_thorough")), "C20.drd.json"), "w"), indent=1)
     except OSError:
         pass
 
@@ -568,11 +568,11 @@ def run(chk):
         run_drd(chk, shim, lst, core + always, nproc)
     else:
         try:
-            last = json.load(open(os.path.join(lib.VERIF, "evidence", "C20.drd.json")))
+            last = json.load(open(os.path.join(lib.ensure_dir(os.path.join(lib.VERIF, "evidence_thorough")), "C20.drd.json")))
             last["same_PyImath_sources_and_shim_as_this_run"] = last.get("pyimath_source_hash") == pyimath_source_hash()
             chk.extra["drd(last thorough run; not re-run in the quick tier)"] = last
         except (OSError, ValueError):
-            chk.extra["drd(last thorough run; not re-run in the quick tier)"] = "no stored result (evidence/C20.drd.json)"
+            chk.extra["drd(last thorough run; not re-run in the quick tier)"] = "no stored result (evidence_thorough/C20.drd.json)"
 
     # ---- part 2: 2-D arrays, matrices, string arrays, variable-array constructors, samplers (all of them, every tier) ----
     t2 = time.time()
